@@ -269,7 +269,7 @@ def exec_max(prog, ref_ledger: list[dict]) -> dict[str, int]:
         for td in sd["tasks"]:
             n = counts.get(td["name"], 0)
             if sd["ref"] in rz:
-                need = td["n"] + 1 if td["k"] in ("poll", "transient", "transientNoCtx", "verify") else 1
+                need = td["n"] + 1 if td["k"] in ("poll", "pollR", "transient", "transientNoCtx", "verify") else 1
                 n = max(n, need)
             out[td["name"]] = n
     return out
